@@ -5,8 +5,13 @@ from .common import *
 LIBPATH = os.pathsep.join([SPEC, os.path.join(SPEC, "ciphers"), os.path.join(SPEC, "conf")])
 
 
-def java_cmd(xmx="3g"):
-    return ["java", "-Xss1g", f"-Xmx{xmx}", "-XX:+UseParallelGC",
+def java_cmd(xmx="3g", tmpdir=None):
+    # TLC and SANY leave tlc-*/SANY* directories in java.io.tmpdir: keep them inside the (removed) work directory
+    tmp = []
+    if tmpdir:
+        os.makedirs(tmpdir, exist_ok=True)
+        tmp = [f"-Djava.io.tmpdir={tmpdir}"]
+    return ["java", "-Xss1g", f"-Xmx{xmx}", "-XX:+UseParallelGC"] + tmp + [
             f"-DTLA-Library={LIBPATH}",
             "-cp", f"{TLA_JAR}:{CM_JAR}", "tlc2.TLC"]
 
@@ -29,7 +34,7 @@ def validate_trace(trace_path, module_path, cfg_path, workdir, timeout=900, xmx=
     n = sum(1 for l in open(trace_path) if l.strip())
     if n == 0:
         return TraceResult(True, 1, None, 0, "", 0.0)
-    cmd = java_cmd(xmx) + ["-workers", "1", "-metadir", os.path.join(workdir, "md"), "-noGenerateSpecTE",
+    cmd = java_cmd(xmx, os.path.join(workdir, "jtmp")) + ["-workers", "1", "-metadir", os.path.join(workdir, "md"), "-noGenerateSpecTE",
                            "-config", cfg_path, module_path]
     t0 = time.time()
     p = run(["timeout", str(timeout)] + cmd, cwd=workdir, env={"TRACE": trace_path}, check=False,
@@ -110,7 +115,7 @@ def model_check(module_path, cfg_path, workdir, workers=8, timeout=900, xmx="8g"
     """Bounded exhaustive model checking.  ok=False means an invariant/property violation (the
     counterexample is in .out); anything else abnormal raises ToolError."""
     fresh_dir(workdir)
-    cmd = java_cmd(xmx) + ["-workers", str(workers), "-metadir", os.path.join(workdir, "md"),
+    cmd = java_cmd(xmx, os.path.join(workdir, "jtmp")) + ["-workers", str(workers), "-metadir", os.path.join(workdir, "md"),
                            "-noGenerateSpecTE", "-config", cfg_path]
     if coverage:
         cmd += ["-coverage", "1"]
